@@ -16,6 +16,8 @@ struct G<'a> {
     /// everybody who was admin of something at some point
     former: Vec<String>,
     ids: Vec<u64>,
+    /// ids of codes registered through ContractWrapper (an Empty-typed contract cannot emit custom messages)
+    wrapped_ids: Vec<u64>,
 }
 
 fn inst(sender: &str, code_id: u64, p: Prog, label: &str, admin: Option<String>) -> TopOp {
@@ -34,6 +36,7 @@ impl<'a> G<'a> {
             targets: vec![],
             former: vec![],
             ids: vec![],
+            wrapped_ids: vec![],
         }
     }
     fn id_hop(&mut self, h: Hop) {
@@ -51,11 +54,20 @@ impl<'a> G<'a> {
     fn setup(&mut self) {
         // code table: 1 full, 2 without migrate, 10 full (non-contiguous), 11 automatic after the gap, 12 = duplicate of 1
         self.id_hop(Hop::Store { creator: None, src: full_src(301) });
-        self.id_hop(Hop::Store { creator: Some(self.users[1].clone()), src: SourceS { tag: 302, checksum: None, has_sudo: true, has_reply: true, has_migrate: false } });
+        self.id_hop(Hop::Store { creator: Some(self.users[1].clone()), src: SourceS { tag: 302, checksum: None, has_sudo: true, has_reply: true, has_migrate: false, wrapped: false } });
         let gap = *self.rng.pick(&[10u64, 10, 7, 1000, u64::MAX - 5]);
         self.id_hop(Hop::StoreWithId { creator: self.users[0].clone(), id: gap, src: full_src(310) });
-        self.id_hop(Hop::Store { creator: None, src: SourceS { tag: 311, checksum: None, has_sudo: false, has_reply: true, has_migrate: true } });
+        self.id_hop(Hop::Store { creator: None, src: SourceS { tag: 311, checksum: None, has_sudo: false, has_reply: true, has_migrate: true, wrapped: false } });
         self.id_hop(Hop::Duplicate { id: 1 });
+        // codes of the ContractWrapper flavour (entry points they lack are simply not attached): full, WITHOUT migrate,
+        // without sudo / reply
+        for src in [wrapped_src(104, true, true, true), wrapped_src(105, true, true, false), wrapped_src(107, false, false, true)] {
+            let before = self.ids.len();
+            self.id_hop(Hop::Store { creator: None, src });
+            if self.ids.len() > before {
+                self.wrapped_ids.push(*self.ids.last().unwrap());
+            }
+        }
         let users = self.users.clone();
         mint_all(&mut self.live, &users);
         let (alice, bob, carol) = (users[0].clone(), users[1].clone(), users[2].clone());
@@ -68,8 +80,13 @@ impl<'a> G<'a> {
         let c3 = self.create(&alice, 1, d.clone(), "c3");
         let own = classic_address(1, n + 5);
         let c4 = self.create(&bob, 1, Some(own), "c4");
-        self.targets = [c0, c1, c2, d.clone(), c3, c4.clone()].into_iter().flatten().collect();
-        self.dispatchers = [d, c4].into_iter().flatten().collect();
+        // a contract running a wrapped code; a second contract that is its own admin
+        let w_full = self.wrapped_ids.first().cloned().unwrap_or(1);
+        let c5 = self.create(&alice, w_full, Some(alice.clone()), "c5");
+        let own6 = classic_address(1, n + 7);
+        let c6 = self.create(&carol, 1, Some(own6), "c6");
+        self.targets = [c0, c1, c2, d.clone(), c3, c4.clone(), c5.clone(), c6.clone()].into_iter().flatten().collect();
+        self.dispatchers = [d, c4, c5, c6].into_iter().flatten().collect();
         self.former = vec![alice, bob, carol];
     }
     fn cdata(&self, c: &str) -> Option<CDataS> {
@@ -105,8 +122,22 @@ impl<'a> G<'a> {
         let id = 20 + self.rng.below(3);
         with_sub(&mut self.nodes, id, ro, m)
     }
-    fn mig_prog(&mut self, me: &str) -> Prog {
-        match self.rng.below(13) {
+    fn runs_wrapped(&self, c: &str) -> bool {
+        self.cdata(c).map(|d| self.wrapped_ids.contains(&d.code_id)).unwrap_or(false)
+    }
+    /// the new code calls back into the contract it is being installed on
+    fn callback_prog(&mut self, me: &str) -> Prog {
+        let ro = *self.rng.pick(&[ReplyOnS::Never, ReplyOnS::Success, ReplyOnS::Always, ReplyOnS::Error]);
+        let q = leaf(&mut self.nodes, vec![Action::Q(QAct::Dump)]);
+        with_sub(&mut self.nodes, 25, ro, Msg::Exec { c: me.into(), p: q, funds: vec![] })
+    }
+    fn mig_prog(&mut self, me: &str, new_code: u64) -> Prog {
+        let mut k = self.rng.below(15);
+        if k == 2 && self.wrapped_ids.contains(&new_code) {
+            k = 5;
+        }
+        match k {
+            13 | 14 => self.callback_prog(me),
             // the migrate entry point of the new code returns an admin operation: it acts as the CONTRACT
             10..=12 => self.admin_sub_prog(me),
             0 => failing(&mut self.nodes),
@@ -123,7 +154,10 @@ impl<'a> G<'a> {
     fn admin_msg(&mut self, c: &str) -> Msg {
         let cur = self.cdata(c).map(|d| d.code_id).unwrap_or(1);
         match self.rng.below(10) {
-            0..=3 => Msg::Migrate { c: c.into(), new_code: self.new_code(cur), p: self.mig_prog(c) },
+            0..=3 => {
+                let new_code = self.new_code(cur);
+                Msg::Migrate { c: c.into(), new_code, p: self.mig_prog(c, new_code) }
+            }
             4..=7 => {
                 let mut pool = self.users.clone();
                 pool.extend(self.targets.clone());
@@ -176,8 +210,39 @@ impl<'a> G<'a> {
             m = Msg::Migrate { c: c.clone(), new_code, p: leaf(&mut self.nodes, vec![Action::Q(QAct::Dump)]) };
         }
         let is_contract = self.targets.contains(&actor);
-        let via_sub = !invalid_actor && (is_contract || self.rng.chance(1, 6));
-        let shape = if invalid_actor { 11 } else { self.rng.below(12) };
+        let mut via_sub = !invalid_actor && (is_contract || self.rng.chance(1, 6));
+        let mut shape = if invalid_actor { 11 } else { self.rng.below(14) };
+        if shape == 2 && self.dispatchers.iter().all(|d| self.runs_wrapped(d)) {
+            shape = 11;
+        }
+        if shape >= 12 {
+            // a contract that IS its own admin: the migration is sent in its name (App::execute takes any Addr); the
+            // new code's migrate returns an admin operation on the contract itself (Never / Success mostly) or calls back
+            let selfs: Vec<String> = reg_of(&self.live).into_iter().filter(|x| x.1.admin.as_deref() == Some(x.0.as_str())).map(|x| x.0).collect();
+            if let Some(x) = selfs.first().cloned() {
+                let x = if selfs.len() > 1 && self.rng.chance(1, 2) { selfs[1].clone() } else { x };
+                let cur = self.cdata(&x).map(|d| d.code_id).unwrap_or(1);
+                let mut pool: Vec<u64> = self.ids.iter().cloned().filter(|i| *i != cur).collect();
+                pool.push(cur);
+                let new_code = *self.rng.pick(&pool);
+                let p = if shape == 12 {
+                    let m2 = match self.rng.below(3) {
+                        0 => Msg::UpdateAdmin { c: x.clone(), a: if self.rng.chance(1, 2) { self.users[1].clone() } else { x.clone() } },
+                        1 => Msg::ClearAdmin { c: x.clone() },
+                        _ => Msg::Migrate { c: x.clone(), new_code: *self.rng.pick(&pool), p: leaf(&mut self.nodes, vec![]) },
+                    };
+                    let ro = *self.rng.pick(&[ReplyOnS::Never, ReplyOnS::Success, ReplyOnS::Never, ReplyOnS::Success, ReplyOnS::Always, ReplyOnS::Error]);
+                    with_sub(&mut self.nodes, 27, ro, m2)
+                } else {
+                    self.callback_prog(&x)
+                };
+                c = x.clone();
+                actor = x.clone();
+                m = Msg::Migrate { c: x, new_code, p };
+                via_sub = false;
+            }
+            shape = 11;
+        }
         if shape == 0 {
             // sudo: the body of the sudo entry point of a contract returns the admin operation
             let d = self.rng.pick(&self.dispatchers).clone();
@@ -207,7 +272,8 @@ impl<'a> G<'a> {
             }
         } else if shape == 2 {
             // reply: a quiet sub-message (succeeding or failing) whose reply program returns the admin operation
-            let d = self.rng.pick(&self.dispatchers).clone();
+            let ds: Vec<String> = self.dispatchers.iter().filter(|d| !self.runs_wrapped(d)).cloned().collect();
+            let d = self.rng.pick(&ds).clone();
             let node = self.nodes.next();
             let on_ok = self.admin_sub_prog(&d);
             let on_err = self.admin_sub_prog(&d);
@@ -336,7 +402,7 @@ fn fixed() -> Vec<History> {
         users: users.clone(),
         hops: vec![
             Hop::Store { creator: None, src: full_src(301) },
-            Hop::Store { creator: None, src: SourceS { tag: 302, checksum: None, has_sudo: true, has_reply: true, has_migrate: false } },
+            Hop::Store { creator: None, src: SourceS { tag: 302, checksum: None, has_sudo: true, has_reply: true, has_migrate: false, wrapped: false } },
             top(inst(&alice, 1, leaf(&mut n, vec![]), "d", Some(d.clone()))),
             top(inst(&alice, 1, leaf(&mut n, vec![]), "t", Some(d.clone()))),
             // the external signer of the transaction is NOT the actor
@@ -355,6 +421,70 @@ fn fixed() -> Vec<History> {
             Hop::Info { c: d.clone() },
         ],
     });
+    // codes registered through ContractWrapper, with only the entry points they have attached: a Migrate to the one
+    // WITHOUT a migrate entry point fails and the code id stays; the others work as migrate targets and as sources
+    let x = classic_address(1, 0);
+    let w = classic_address(3, 1);
+    out.push(History {
+        users: users.clone(),
+        hops: vec![
+            Hop::Store { creator: None, src: full_src(301) },
+            Hop::Store { creator: None, src: wrapped_src(105, true, true, false) },
+            Hop::Store { creator: None, src: wrapped_src(104, true, true, true) },
+            Hop::Store { creator: None, src: wrapped_src(107, false, false, true) },
+            top(inst(&alice, 1, leaf(&mut n, vec![Action::Write(b"a".to_vec(), vec![9])]), "x", Some(alice.clone()))),
+            top(ex(&alice, Msg::Migrate { c: x.clone(), new_code: 2, p: leaf(&mut n, vec![]) })),
+            Hop::Info { c: x.clone() },
+            top(TopOp::HelperMigrate { sender: alice.clone(), c: x.clone(), new_code: 2, p: leaf(&mut n, vec![]) }),
+            Hop::Info { c: x.clone() },
+            top(ex(&alice, Msg::Migrate { c: x.clone(), new_code: 3, p: leaf(&mut n, vec![Action::Q(QAct::Dump)]) })),
+            Hop::Info { c: x.clone() },
+            top(ex(&bob, Msg::Exec { c: x.clone(), p: leaf(&mut n, vec![Action::Q(QAct::Dump)]), funds: vec![] })),
+            top(TopOp::WasmSudo { c: x.clone(), p: leaf(&mut n, vec![]) }),
+            top(ex(&alice, Msg::Migrate { c: x.clone(), new_code: 4, p: leaf(&mut n, vec![]) })),
+            top(TopOp::WasmSudo { c: x.clone(), p: leaf(&mut n, vec![]) }),
+            top(ex(&alice, Msg::Migrate { c: x.clone(), new_code: 2, p: leaf(&mut n, vec![]) })),
+            Hop::Info { c: x.clone() },
+            // a contract born from a wrapped code, migrated to the scripted flavour and back to the one lacking migrate
+            top(inst(&bob, 3, leaf(&mut n, vec![]), "w", Some(bob.clone()))),
+            top(ex(&bob, Msg::Migrate { c: w.clone(), new_code: 2, p: leaf(&mut n, vec![]) })),
+            top(ex(&bob, Msg::Migrate { c: w.clone(), new_code: 1, p: leaf(&mut n, vec![]) })),
+            top(ex(&bob, Msg::Migrate { c: w.clone(), new_code: 2, p: leaf(&mut n, vec![]) })),
+            Hop::Info { c: w.clone() },
+        ],
+    });
+    // a contract that is its own admin is migrated in its own name; the new code's migrate returns ClearAdmin /
+    // UpdateAdmin / Migrate on the contract itself, or calls back into it: accepted, the effect is there after the
+    // call, and everything logged at the contract during the call is served by the new code
+    let x = classic_address(1, 0);
+    let mut hops = vec![
+        Hop::Store { creator: None, src: full_src(301) },
+        Hop::Store { creator: None, src: full_src(302) },
+        Hop::Store { creator: None, src: full_src(303) },
+        top(inst(&alice, 1, leaf(&mut n, vec![]), "x", Some(x.clone()))),
+    ];
+    let q = leaf(&mut n, vec![Action::Q(QAct::Dump)]);
+    let p = with_sub(&mut n, 60, ReplyOnS::Success, Msg::Exec { c: x.clone(), p: q, funds: vec![] });
+    hops.push(top(ex(&x, Msg::Migrate { c: x.clone(), new_code: 2, p })));
+    hops.push(Hop::Info { c: x.clone() });
+    let p_in = leaf(&mut n, vec![]);
+    let p = with_sub(&mut n, 61, ReplyOnS::Never, Msg::Migrate { c: x.clone(), new_code: 3, p: p_in });
+    hops.push(top(ex(&x, Msg::Migrate { c: x.clone(), new_code: 1, p })));
+    hops.push(Hop::Info { c: x.clone() });
+    let p = with_sub(&mut n, 62, ReplyOnS::Success, Msg::UpdateAdmin { c: x.clone(), a: x.clone() });
+    hops.push(top(ex(&x, Msg::Migrate { c: x.clone(), new_code: 2, p })));
+    hops.push(Hop::Info { c: x.clone() });
+    let p = with_sub(&mut n, 63, ReplyOnS::Never, Msg::UpdateAdmin { c: x.clone(), a: bob.clone() });
+    hops.push(top(ex(&x, Msg::Migrate { c: x.clone(), new_code: 1, p })));
+    hops.push(Hop::Info { c: x.clone() });
+    let p = with_sub(&mut n, 64, ReplyOnS::Never, Msg::UpdateAdmin { c: x.clone(), a: x.clone() });
+    hops.push(top(ex(&bob, Msg::UpdateAdmin { c: x.clone(), a: x.clone() })));
+    hops.push(top(ex(&x, Msg::Migrate { c: x.clone(), new_code: 3, p })));
+    let p = with_sub(&mut n, 65, ReplyOnS::Never, Msg::ClearAdmin { c: x.clone() });
+    hops.push(top(ex(&x, Msg::Migrate { c: x.clone(), new_code: 2, p })));
+    hops.push(Hop::Info { c: x.clone() });
+    hops.push(top(ex(&carol, Msg::Exec { c: x.clone(), p: leaf(&mut n, vec![Action::Q(QAct::Dump)]), funds: vec![] })));
+    out.push(History { users: users.clone(), hops });
     // senders the chain's Api cannot validate, against a contract that never had an admin, a contract whose admin
     // was cleared, and a contract with a normal admin: always refused, code id and admin unchanged
     let c0 = classic_address(1, 0);
@@ -385,6 +515,12 @@ fn fixed() -> Vec<History> {
     hops.push(Hop::Info { c: c2.clone() });
     // the real admin still works
     hops.push(top(ex(&alice, Msg::Migrate { c: c2.clone(), new_code: 2, p: leaf(&mut n, vec![]) })));
+    hops.push(Hop::Info { c: c2.clone() });
+    // ... but cannot hand over to a string that is no address: refused, the admin stays
+    for bad in invalid_senders(&alice) {
+        hops.push(top(ex(&alice, Msg::UpdateAdmin { c: c2.clone(), a: bad })));
+    }
+    hops.push(top(ex(&alice, Msg::UpdateAdmin { c: c2.clone(), a: "not an address".into() })));
     hops.push(Hop::Info { c: c2.clone() });
     out.push(History { users: users.clone(), hops });
     // a contract that is NOT its own admin returns UpdateAdmin(self -> self-chosen) / ClearAdmin / Migrate from its
@@ -466,7 +602,7 @@ fn main() {
         &|rng, thorough| G::new(rng).run(thorough),
         40,
         400,
-        "histories = code table (auto, without migrate entry point, non-contiguous explicit id, auto after the gap, duplicate), six contracts (admin = creator; none; a user other than the creator; a dispatcher contract that is its own creator's; another contract; the contract itself), then 6-20 attempts: target x actor (current admin as reported by the registry, creator, former admins, strangers, senders the chain's Api cannot validate, a contract acting through a sub-message under every reply mode, dispatched from execute, sudo, instantiate, a reply program, or the MIGRATE entry point of the new code) x operation (Migrate to the same / another / duplicate / entry-point-less / unknown / zero / non-contiguous code with a clean, failing, malformed or sub-message-dispatching migrate program; UpdateAdmin to users, contracts, itself, an invalid string; ClearAdmin), each framed by ContractInfo / contract_data / dump_wasm_raw observations and followed by execute / sudo calls on the target. 5 fixed histories first (senders the Api cannot validate — plain name, foreign prefix, upper-cased admin, empty string — against contracts with no / cleared / normal admin; F2 witness + full life cycle; contracts as admins; a contract NOT its own admin returning admin operations from migrate / sudo / instantiate / reply under every reply mode; a contract that IS its own admin doing the same). non-trivial = at least one admin operation accepted and at least one refused",
+        "histories = code table (auto, without migrate entry point, non-contiguous explicit id, auto after the gap, duplicate, three ContractWrapper-registered codes: full / without migrate / without sudo+reply), six contracts (admin = creator; none; a user other than the creator; a dispatcher contract that is its own creator's; another contract; the contract itself), then 6-20 attempts: target x actor (current admin as reported by the registry, creator, former admins, strangers, senders the chain's Api cannot validate, a contract acting through a sub-message under every reply mode, dispatched from execute, sudo, instantiate, a reply program, or the MIGRATE entry point of the new code) x operation (Migrate to the same / another / duplicate / entry-point-less / unknown / zero / non-contiguous code with a clean, failing, malformed or sub-message-dispatching migrate program; UpdateAdmin to users, contracts, itself, an invalid string; ClearAdmin), each framed by ContractInfo / contract_data / dump_wasm_raw observations and followed by execute / sudo calls on the target. 7 fixed histories first (ContractWrapper codes lacking migrate / sudo / reply as migrate targets and sources; a self-admin contract migrated in its own name whose new code returns admin operations on itself or calls back; senders the Api cannot validate — plain name, foreign prefix, upper-cased admin, empty string — against contracts with no / cleared / normal admin; F2 witness + full life cycle; contracts as admins; a contract NOT its own admin returning admin operations from migrate / sudo / instantiate / reply under every reply mode; a contract that IS its own admin doing the same). non-trivial = at least one admin operation accepted and at least one refused",
         &|h, obs| {
             let mut acc = false;
             let mut refu = false;
